@@ -17,12 +17,14 @@ package main
 
 import (
 	"bytes"
+	"encoding/json"
 	"errors"
 	"fmt"
 	"net"
 	"net/http"
 	"net/http/httptest"
 	"os"
+	"path/filepath"
 	"strings"
 	"syscall"
 	"time"
@@ -244,157 +246,209 @@ type panicSvc struct {
 func (p *panicSvc) Request(req helpers.SizeGetter, insertMode int) *promise.Promise[uint32] { panic(p.msg) }
 func (p *panicSvc) Stop()                                                                    {}
 
-// c01HandlerErrText: one push through the real chain; the k-th INSERT of a table fails with the k-th text.
-func c01HandlerErrText(r *h.Result, rng *h.Rng, n int) error {
+type errTextSpec struct {
+	Attempts int      `json:"attempts"`
+	Mode     int      `json:"mode"` // 0..5 both tables fail to the end; 6 samples' last attempt succeeds; 7 series ok, samples fail; 8 all ok; 9 samples service panics
+	TsTexts  []string `json:"time_series_insert_error_texts"`
+	SplTexts []string `json:"samples_insert_error_texts"`
+	TsOuts   []bool   `json:"time_series_insert_outcomes"`
+	SplOuts  []bool   `json:"samples_insert_outcomes"`
+	PanicMsg string   `json:"samples_service_panics_with"`
+}
+
+func c01GenErrTextSpec(rng *h.Rng) errTextSpec {
+	sp := errTextSpec{Attempts: rng.Intn(4)}
+	if rng.Chance(70) {
+		sp.Attempts = 1 + rng.Intn(3)
+	}
+	sp.Mode = rng.Intn(10)
+	mkTexts := func() []string {
+		ts := make([]string, sp.Attempts)
+		for j := range ts {
+			ts[j] = c01GenErrText(rng)
+		}
+		// most cases carry the reset text in at least one attempt: the class of fault ErrorHandler has a branch for
+		if sp.Attempts > 0 && rng.Chance(60) {
+			ts[rng.Intn(sp.Attempts)] = h.Pick(rng, c01ErrAtoms[1:3])
+		}
+		return ts
+	}
+	sp.TsTexts, sp.SplTexts = mkTexts(), mkTexts()
+	sp.TsOuts, sp.SplOuts = make([]bool, sp.Attempts), make([]bool, sp.Attempts)
+	switch sp.Mode {
+	case 6:
+		for j := range sp.TsOuts {
+			sp.TsOuts[j] = true
+		}
+		if sp.Attempts > 0 {
+			sp.SplOuts[sp.Attempts-1] = true
+		}
+	case 7, 9:
+		for j := range sp.TsOuts {
+			sp.TsOuts[j] = true
+		}
+	case 8:
+		for j := range sp.TsOuts {
+			sp.TsOuts[j], sp.SplOuts[j] = true, true
+		}
+	}
+	if sp.Mode == 9 {
+		sp.PanicMsg = c01GenErrText(rng)
+	}
+	return sp
+}
+
+// c01RunErrTextCase: one push through the real chain; the k-th INSERT of a table fails with the k-th text. Returns the
+// model line, the implementation's answer and the case description; judges the property on the way.
+func c01RunErrTextCase(r *h.Result, rng *h.Rng, i int, sp errTextSpec) (string, string, map[string]any) {
+	attempts := sp.Attempts
+	atts := func(outs []bool, texts []string) string {
+		var parts []string
+		for j, ok := range outs {
+			if ok {
+				parts = append(parts, "o")
+				break // the loop ends at the first success
+			}
+			t := ""
+			if j < len(texts) {
+				t = texts[j]
+			}
+			parts = append(parts, "f"+h.Hex([]byte(t)))
+		}
+		return strings.Join(parts, ".")
+	}
+	splModel := "1,1," + atts(sp.SplOuts, sp.SplTexts)
+	if sp.Mode == 9 {
+		splModel = "1,1,p" + h.Hex([]byte(sp.PanicMsg))
+		if attempts == 0 {
+			splModel = "1,1,"
+		}
+	}
+	rig := newHandlerRig(rng.Fork(), attempts, time.Millisecond, 0, 1, 0, 0, 0, map[string][]bool{"timeSeries": sp.TsOuts, "samples": sp.SplOuts})
+	for k, texts := range map[string][]string{"timeSeries": sp.TsTexts, "samples": sp.SplTexts} {
+		env, texts := rig.envs[k], texts
+		env.mu.Lock()
+		env.errFn = func(j int) error {
+			if j < len(texts) {
+				return c01MkErr(h.NewRng(uint64(j)), texts[j])
+			}
+			return errScripted
+		}
+		env.mu.Unlock()
+	}
+	if sp.Mode == 9 {
+		maps := map[string]map[string]service.IInsertServiceV2{}
+		for _, k := range kinds {
+			maps[k] = map[string]service.IInsertServiceV2{"n1": rig.svcs[k]}
+		}
+		maps["samples"] = map[string]service.IInsertServiceV2{"n1": &panicSvc{msg: sp.PanicMsg}}
+		controllerv1.Registry = registry.NewStaticServiceRegistry(maps["timeSeries"], maps["samples"], maps["metrics"],
+			maps["tempoSamples"], maps["tempoTags"], maps["profile"])
+	}
+	tok0, tok1 := uint64(7000000+i*8), uint64(7000001+i*8)
+	body := lokiBody(uint64(5000000+i), []uint64{tok0, tok1})
+	w := &c01Recorder{ResponseRecorder: httptest.NewRecorder()}
+	done := make(chan struct{})
+	go func() {
+		defer close(done)
+		req := httptest.NewRequest("POST", "/loki/api/v1/push", bytes.NewReader(body))
+		req.Header.Set("Content-Type", "application/json")
+		rig.handler(w, req)
+	}()
+	ans, status := "hang", -1
+	select {
+	case <-done:
+		ans, status = w.answer()
+	case <-time.After(20 * time.Second):
+	}
+	rig.stop()
+	// what the fake database accepted
+	splEnv, tsEnv := rig.envs["samples"], rig.envs["timeSeries"]
+	splEnv.mu.Lock()
+	have := map[uint64]bool{}
+	for _, lb := range splEnv.okBlocks {
+		for _, v := range lb.blk.Data["string"] {
+			have[v] = true
+		}
+	}
+	splDo, splErr := splEnv.nDo, splEnv.nDoErr
+	splEnv.mu.Unlock()
+	tsEnv.mu.Lock()
+	tsOk, tsDo, tsErr := len(tsEnv.okBlocks), tsEnv.nDo, tsEnv.nDoErr
+	tsEnv.mu.Unlock()
+	chunk := fmt.Sprintf("1,1,%s|%s|0,0,|0,0,|0,1,", atts(sp.TsOuts, sp.TsTexts), splModel)
+	replay := map[string]any{"stream": "handler-errtext", "attempts": attempts, "mode": sp.Mode,
+		"time_series_insert_outcomes": sp.TsOuts, "time_series_insert_error_texts": sp.TsTexts,
+		"samples_insert_outcomes": sp.SplOuts, "samples_insert_error_texts": sp.SplTexts, "samples_service_panics_with": sp.PanicMsg,
+		"answer": ans, "status_read_by_client": status,
+		"do_calls": map[string]int{"time_series": tsDo, "time_series_failed": tsErr, "samples": splDo, "samples_failed": splErr}}
+	r.Case(fmt.Sprintf("handler-errtext:%d:%d:%s", attempts, sp.Mode, chunk), attempts > 0)
+	r.Count(fmt.Sprintf("handler-errtext:mode=%d", sp.Mode))
+	r.Count("handler-errtext:answer=" + ans)
+	allIn := have[tok0] && have[tok1] && tsOk > 0
+	if !allIn {
+		r.Count("handler-errtext:rows-not-inserted")
+		if status < 0 {
+			r.Violate("C01/no-answer", fmt.Sprintf("push with attempts=%d whose INSERTs fail got no answer within 20 s", attempts), replay)
+		} else if status < 400 {
+			why := "wrote status " + fmt.Sprint(status)
+			if ans == "silent" {
+				why = "wrote nothing, so net/http answers 200"
+			}
+			r.Violate("C01/insert-failed-but-success-status",
+				fmt.Sprintf("one push (1 series, 2 lines), attempts=%d: time_series INSERTs %d/%d failed, samples INSERTs %d/%d failed (texts %q / %q), the lines are in no accepted block, yet the handler %s",
+					attempts, tsErr, tsDo, splErr, splDo, sp.TsTexts, sp.SplTexts, why), replay)
+		}
+	} else if status >= 400 {
+		r.Count("handler-errtext:inserted-but-error-status")
+	}
+	return fmt.Sprintf("c01answer %d 204 - %s", attempts, chunk), ans, replay
+}
+
+func c01HandlerErrText(r *h.Result, rng *h.Rng, n int, only *errTextSpec) error {
 	r.Stream("handler-errtext: real PushStreamV2 (Build/doParse/doPush/retry-go/ErrorHandler, real services with Run loops), attempts 0..3, the k-th INSERT of time_series / samples_v3 fails with the k-th generated text (or the last one succeeds, or the samples service panics) vs ErrorHandler.handlerT; oracle: rows in no accepted INSERT ⇒ status read by the client >= 400 (nothing written = 200)")
 	var ops, impl []string
 	var cases []any
 	for i := 0; i < n; i++ {
-		attempts := rng.Intn(4)
-		if rng.Chance(70) {
-			attempts = 1 + rng.Intn(3)
+		sp := c01GenErrTextSpec(rng)
+		if only != nil {
+			sp = *only
 		}
-		mode := rng.Intn(10) // 0..5 both tables fail to the end; 6 samples' last attempt succeeds; 7 series ok, samples fail; 8 all ok; 9 samples service panics
-		mkTexts := func() []string {
-			ts := make([]string, attempts)
-			for j := range ts {
-				ts[j] = c01GenErrText(rng)
-			}
-			// most cases carry the reset text in at least one attempt: the class of fault ErrorHandler has a branch for
-			if attempts > 0 && rng.Chance(60) {
-				ts[rng.Intn(attempts)] = h.Pick(rng, c01ErrAtoms[1:3])
-			}
-			return ts
-		}
-		tsTexts, splTexts := mkTexts(), mkTexts()
-		tsOuts, splOuts := make([]bool, attempts), make([]bool, attempts)
-		switch mode {
-		case 6:
-			for j := range tsOuts {
-				tsOuts[j] = true
-			}
-			if attempts > 0 {
-				splOuts[attempts-1] = true
-			}
-		case 7:
-			for j := range tsOuts {
-				tsOuts[j] = true
-			}
-		case 8:
-			for j := range tsOuts {
-				tsOuts[j], splOuts[j] = true, true
-			}
-		case 9:
-			for j := range tsOuts {
-				tsOuts[j] = true
-			}
-		}
-		atts := func(outs []bool, texts []string) string {
-			var parts []string
-			for j, ok := range outs {
-				if ok {
-					parts = append(parts, "o")
-					break // the loop ends at the first success
-				}
-				parts = append(parts, "f"+h.Hex([]byte(texts[j])))
-			}
-			return strings.Join(parts, ".")
-		}
-		panicMsg := ""
-		splModel := "1,1," + atts(splOuts, splTexts)
-		if mode == 9 {
-			panicMsg = c01GenErrText(rng)
-			splModel = "1,1,p" + h.Hex([]byte(panicMsg))
-			if attempts == 0 {
-				splModel = "1,1,"
-			}
-		}
-		rig := newHandlerRig(rng.Fork(), attempts, time.Millisecond, 0, 1, 0, 0, 0, map[string][]bool{"timeSeries": tsOuts, "samples": splOuts})
-		for k, texts := range map[string][]string{"timeSeries": tsTexts, "samples": splTexts} {
-			env, texts := rig.envs[k], texts
-			env.mu.Lock()
-			env.errFn = func(j int) error {
-				if j < len(texts) {
-					return c01MkErr(h.NewRng(uint64(j)), texts[j])
-				}
-				return errScripted
-			}
-			env.mu.Unlock()
-		}
-		if mode == 9 {
-			maps := map[string]map[string]service.IInsertServiceV2{}
-			for _, k := range kinds {
-				maps[k] = map[string]service.IInsertServiceV2{"n1": rig.svcs[k]}
-			}
-			maps["samples"] = map[string]service.IInsertServiceV2{"n1": &panicSvc{msg: panicMsg}}
-			controllerv1.Registry = registry.NewStaticServiceRegistry(maps["timeSeries"], maps["samples"], maps["metrics"],
-				maps["tempoSamples"], maps["tempoTags"], maps["profile"])
-		}
-		tok0, tok1 := uint64(7000000+i*8), uint64(7000001+i*8)
-		body := lokiBody(uint64(5000000+i), []uint64{tok0, tok1})
-		w := &c01Recorder{ResponseRecorder: httptest.NewRecorder()}
-		done := make(chan struct{})
-		go func() {
-			defer close(done)
-			req := httptest.NewRequest("POST", "/loki/api/v1/push", bytes.NewReader(body))
-			req.Header.Set("Content-Type", "application/json")
-			rig.handler(w, req)
-		}()
-		ans, status := "hang", -1
-		select {
-		case <-done:
-			ans, status = w.answer()
-		case <-time.After(20 * time.Second):
-		}
-		rig.stop()
-		// what the fake database accepted
-		splEnv, tsEnv := rig.envs["samples"], rig.envs["timeSeries"]
-		splEnv.mu.Lock()
-		have := map[uint64]bool{}
-		for _, lb := range splEnv.okBlocks {
-			for _, v := range lb.blk.Data["string"] {
-				have[v] = true
-			}
-		}
-		splDo, splErr := splEnv.nDo, splEnv.nDoErr
-		splEnv.mu.Unlock()
-		tsEnv.mu.Lock()
-		tsOk, tsDo, tsErr := len(tsEnv.okBlocks), tsEnv.nDo, tsEnv.nDoErr
-		tsEnv.mu.Unlock()
-		chunk := fmt.Sprintf("1,1,%s|%s|0,0,|0,0,|0,1,", atts(tsOuts, tsTexts), splModel)
-		ops = append(ops, fmt.Sprintf("c01answer %d 204 - %s", attempts, chunk))
-		impl = append(impl, ans)
-		replay := map[string]any{"stream": "handler-errtext", "attempts": attempts, "mode": mode,
-			"time_series_insert_outcomes": tsOuts, "time_series_insert_error_texts": tsTexts,
-			"samples_insert_outcomes": splOuts, "samples_insert_error_texts": splTexts, "samples_service_panics_with": panicMsg,
-			"answer": ans, "status_read_by_client": status,
-			"do_calls": map[string]int{"time_series": tsDo, "time_series_failed": tsErr, "samples": splDo, "samples_failed": splErr}}
-		cases = append(cases, replay)
-		r.Case(fmt.Sprintf("handler-errtext:%d:%d:%s", attempts, mode, chunk), attempts > 0)
-		r.Count(fmt.Sprintf("handler-errtext:mode=%d", mode))
-		r.Count("handler-errtext:answer=" + ans)
+		op, ans, c := c01RunErrTextCase(r, rng, i, sp)
+		ops, impl, cases = append(ops, op), append(impl, ans), append(cases, c)
 		if i < 2 {
-			r.Sample(replay)
-		}
-		allIn := have[tok0] && have[tok1] && tsOk > 0
-		if !allIn {
-			r.Count("handler-errtext:rows-not-inserted")
-			if status < 0 {
-				r.Violate("C01/no-answer", fmt.Sprintf("push with attempts=%d whose INSERTs fail got no answer within 20 s", attempts), replay)
-			} else if status < 400 {
-				why := "wrote status " + fmt.Sprint(status)
-				if ans == "silent" {
-					why = "wrote nothing, so net/http answers 200"
-				}
-				r.Violate("C01/insert-failed-but-success-status",
-					fmt.Sprintf("one push (1 series, 2 lines), attempts=%d: time_series INSERTs %d/%d failed, samples INSERTs %d/%d failed (texts %q / %q), the lines are in no accepted block, yet the handler %s",
-						attempts, tsErr, tsDo, splErr, splDo, tsTexts, splTexts, why), replay)
-			}
-		} else if status >= 400 {
-			r.Count("handler-errtext:inserted-but-error-status")
+			r.Sample(c)
 		}
 	}
 	return r.Compare("handler-errtext", ops, impl, cases)
+}
+
+// loadReplayDoc returns the "replay" object of a replay file written by ./check (nil if there is none)
+func loadReplayDoc(path string) map[string]any {
+	b, err := os.ReadFile(path)
+	if err != nil {
+		b, err = os.ReadFile(filepath.Join("..", path))
+	}
+	if err != nil {
+		return nil
+	}
+	var doc struct {
+		Replay map[string]any `json:"replay"`
+	}
+	if json.Unmarshal(b, &doc) != nil {
+		return nil
+	}
+	return doc.Replay
+}
+
+// c01ReplayErrText re-runs one recorded handler-errtext case on implementation and model
+func c01ReplayErrText(r *h.Result, rng *h.Rng, doc map[string]any) error {
+	b, _ := json.Marshal(doc)
+	var sp errTextSpec
+	if err := json.Unmarshal(b, &sp); err != nil {
+		return err
+	}
+	return c01HandlerErrText(r, rng, 1, &sp)
 }
 
 // keep the config import used even if the rig changes
